@@ -258,7 +258,7 @@ def e2e_skip(ck, n_files):
             ck.violation("skipping analyses lowered the health score: --select %s gives %d, full run gives %d on %d generated files"
                          % (sel, s["health_score"], full["health_score"], n_files),
                          {"kind": "e2e-skip", "select": sel, "n_files": n_files, "summary_sel": s, "summary_full": full,
-                          "file_template": PY_FILE})
+                          "file_template": PY_FILE}, independent=True)
     for a, b in (("deadcode", "complexity,deadcode"), ("complexity", "complexity,deadcode"), ("deadcode", "deadcode,cbo"), ("deadcode", "clones,deadcode")):
         if a in runs and b in runs:
             n += 1
@@ -266,7 +266,7 @@ def e2e_skip(ck, n_files):
                 ck.violation("skipping analyses lowered the health score: --select %s gives %d, --select %s gives %d (%d files)"
                              % (a, runs[a]["health_score"], b, runs[b]["health_score"], n_files),
                              {"kind": "e2e-skip", "select": a, "superset": b, "n_files": n_files, "summary_sel": runs[a],
-                              "summary_super": runs[b], "file_template": PY_FILE})
+                              "summary_super": runs[b], "file_template": PY_FILE}, independent=True)
     # ----- the same question through the configuration file: a category switched off in [system_analysis] (or by --skip-*) must cost
     # nothing: the score of the run with the category off is never below the score of the full run
     import shutil
@@ -304,7 +304,7 @@ def e2e_skip(ck, n_files):
             ck.violation("switching analyses off lowered the health score: variant %s gives %d, the full run gives %d"
                          % (name, sm["health_score"], fullr["summary"]["health_score"]),
                          {"kind": "e2e-config", "variant": name, "config": variants[name][0], "flags": variants[name][1], "summary": sm,
-                          "summary_full": fullr["summary"]})
+                          "summary_full": fullr["summary"]}, independent=True)
     return n
 
 
@@ -356,7 +356,7 @@ def main(tier):
             break
         r = impl[idx]
         if "error" in r:
-            ck.violation("CalculateHealthScore crashed: %s" % r["error"], {"summary": s, "impl": r})
+            ck.violation("CalculateHealthScore crashed: %s" % r["error"], {"summary": s, "impl": r}, independent=True)
             continue
         iv = impl_vec(r)
         seen.add(tuple(iv[:2]))
@@ -400,7 +400,7 @@ def main(tier):
             mono_bad += 1
             if mono_bad <= 3:
                 ck.violation("making measured quantities worse raised the score: %d -> %d" % (a["health"], b["health"]),
-                             {"kind": "monotone", "summary": s, "worse_summary": t, "impl": a, "impl_worse": b})
+                             {"kind": "monotone", "summary": s, "worse_summary": t, "impl": a, "impl_worse": b}, independent=True)
 
     # ---------------- part B: calculateSummary (assembly) vs model; skip never lowers ----
     asm = []
@@ -441,14 +441,14 @@ def main(tier):
             break
         r1, r2 = aimpl[2 * k], aimpl[2 * k + 1]
         if "error" in r1 or "error" in r2:
-            ck.violation("calculateSummary crashed: %s %s" % (r1.get("error"), r2.get("error")), {"analyses": a, "sel": s1, "sel_super": s2})
+            ck.violation("calculateSummary crashed: %s %s" % (r1.get("error"), r2.get("error")), {"analyses": a, "sel": s1, "sel_super": s2}, independent=True)
             continue
         if r1["health"] < r2["health"] and r1["grade"] != "N/A":
             skipbad += 1
             if skipbad <= 3:
                 ck.violation("skipping analyses lowered the score: %d with %s, %d with superset %s" % (
                     r1["health"], [k for k in SELK if s1[k]], r2["health"], [k for k in SELK if s2[k]]),
-                    {"kind": "skip", "analyses": a, "sel": s1, "sel_super": s2, "impl": r1, "impl_super": r2})
+                    {"kind": "skip", "analyses": a, "sel": s1, "sel_super": s2, "impl": r1, "impl_super": r2}, independent=True)
         if amodel is not None:
             for r, mv, sel in ((r1, amodel[2 * k], s1), (r2, amodel[2 * k + 1], s2)):
                 iv = [r["health"], GRADE.get(r["grade"], 9)] + list(r["scores"])
